@@ -47,7 +47,7 @@ type KeysAndCert struct {
 func NewKAC(sig, crypto int, nullCert bool, extra []byte, cryptoKey, padding, signing []byte) KeysAndCert {
 	k := KeysAndCert{SigType: sig, CryptoType: crypto, Crypto: cryptoKey, Padding: padding, Signing: signing}
 	if nullCert {
-		k.Cert = Cert{CertNull, nil}
+		k.Cert = Cert{CertNull, append([]byte(nil), extra...)} // a NULL certificate may declare (ignored) payload bytes
 	} else {
 		k.Cert = Cert{CertKey, KeyCertPayload(sig, crypto, extra)}
 	}
@@ -79,10 +79,8 @@ func (r *Rd) KeysAndCert() KeysAndCert {
 	k := KeysAndCert{Cert: c}
 	switch c.Type {
 	case CertNull:
-		if len(c.Payload) != 0 {
-			r.Fail("NULL certificate with payload")
-			return k
-		}
+		// a NULL certificate that declares payload bytes is framed by its length field like any other
+		// certificate (property C02 quantifies over "NULL and KEY certificates with and without extra payload")
 		k.SigType, k.CryptoType = SigDSA, CryptoElG
 	case CertKey:
 		if len(c.Payload) < 4 {
